@@ -119,6 +119,49 @@ fn c11a_retention_by_age_and_number() {
     std::mem::forget(slot);
 }
 
+/// Same rules on four existing deltas.
+// vk: tier=thorough; timeout=2400; bound=4 existing deltas with arbitrary non-decreasing ages < 2^17 s, min/max number 0..=8 with 1 <= max and min <= max, min/max age 0..=65535 s
+#[kani::proof]
+#[kani::unwind(7)]
+#[kani::stub(rpki::repository::x509::Time::now, stub_now)]
+fn c11a_retention_by_age_and_number_4() {
+    let now = sym_now();
+    let ages: [u32; 4] = kani::any();
+    let mut k = 0;
+    while k < 4 {
+        kani::assume(ages[k] < (1 << 17));
+        if k > 0 { kani::assume(ages[k - 1] <= ages[k]); }
+        k += 1;
+    }
+    let mut deltas = VecDeque::new();
+    let mut k = 0;
+    while k < 4 { deltas.push_back(delta_at(9 - k as u64, ages[k], now)); k += 1; }
+    let mut slot = std::mem::MaybeUninit::<RrdpServer>::uninit();
+    let p = slot.as_mut_ptr();
+    unsafe { std::ptr::addr_of_mut!((*p).deltas).write(deltas); }
+    let server: &RrdpServer = unsafe { &*p };
+    let cfg = any_rrdp_config();
+    let keep = server.find_deltas_truncate_age(cfg);
+    assert!(keep <= 4);
+    assert!(keep + 1 <= cfg.rrdp_delta_files_max_nr || keep <= cfg.rrdp_delta_files_min_nr
+        || ages[keep - 1] < cfg.rrdp_delta_files_min_seconds);
+    let min_wanted = if cfg.rrdp_delta_files_min_nr < 4 { cfg.rrdp_delta_files_min_nr } else { 4 };
+    assert!(keep >= min_wanted);
+    let mut i = 0;
+    while i < 4 {
+        if ages[i] < cfg.rrdp_delta_files_min_seconds { assert!(keep > i); }
+        i += 1;
+    }
+    if keep > 0 && keep > cfg.rrdp_delta_files_min_nr
+        && ages[keep - 1] >= cfg.rrdp_delta_files_min_seconds {
+        assert!(ages[keep - 1] <= cfg.rrdp_delta_files_max_seconds);
+    }
+    kani::cover!(keep == 0);
+    kani::cover!(keep == 4);
+    kani::cover!(keep == 3 && cfg.rrdp_delta_files_max_nr == 4);
+    std::mem::forget(slot);
+}
+
 /// The two age tests the retention rules are built from: a delta is
 /// "younger than s" iff its age is below s, "older than s" iff above; never
 /// both; at exactly s it is neither (so it is kept by the remainder rule).
